@@ -55,7 +55,31 @@ def actEv (act : String) : Option Ev :=
                 (.ro (.ptrHIV vU (.obj vU)) (.upd vU 0 .done)))
   | "s:ow" => some (.alloc (some pA) (.ro (.ptrHIV (.fresh none) (.obj (.fresh (some pA)))) (.upd (.fresh (some pA)) 0 .done)))
   -- construction
-  | "s:kl" | "s:kp" | "s:kn" => some (.alloc (getDeclaredPkgID (.declared pV)) .done)
+  | "s:kl" | "s:kp" | "s:kn" | "s:ku" | "s:ke" => some (.alloc (getDeclaredPkgID (.declared pV)) .done)
+  -- composite literals / make / new of the victim's DECLARED map, slice and array types:
+  -- the check sees the *DeclaredType (not its anonymous base), so all of them are gated
+  | "s:qm" | "s:qn" | "s:qk" => some (.alloc (getDeclaredPkgID (.named pV (.mapOf .anon))) .done)
+  | "s:ql" | "s:qe" | "s:qi" | "s:qs" => some (.alloc (getDeclaredPkgID (.named pV (.sliceOf .anon))) .done)
+  | "s:qa" | "s:qb" | "s:qj" => some (.alloc (getDeclaredPkgID (.named pV (.arrayOf .anon))) .done)
+  | "s:qp" | "s:qo" => some (.alloc (getDeclaredPkgID (.ptrTo (.named pV (.mapOf .anon)))) .done)
+  -- nested: the inner literal is built (and checked) first, then the enclosing one
+  | "s:qw" => some (.alloc (getDeclaredPkgID (.named pV (.mapOf .anon))) (.alloc (some pA) .done))
+  | "s:qx" => some (.alloc (getDeclaredPkgID (.declared pV)) (.alloc (some pA) .done))
+  | "s:qt" => some (.alloc (getDeclaredPkgID (.declared pV)) (.alloc (getDeclaredPkgID (.sliceOf (.declared pV))) .done))
+  | "s:qu" => some (.alloc (getDeclaredPkgID (.declared pV)) (.alloc (getDeclaredPkgID (.mapOf (.declared pV))) .done))
+  | "s:qv" => some (.alloc (getDeclaredPkgID (.named pV (.mapOf .anon))) (.alloc none .done))
+  | "s:qg" => some (.alloc (getDeclaredPkgID (.named pV (.sliceOf .anon))) (.alloc none .done))
+  -- built as an argument, then handed to a victim function
+  | "s:qr" => some (.alloc (getDeclaredPkgID (.named pV (.mapOf .anon))) (getter .done))
+  | "s:qz" => some (.alloc (getDeclaredPkgID (.named pV (.sliceOf .anon))) (getter .done))
+  | "s:qf" => some (.alloc (getDeclaredPkgID (.named pV (.arrayOf .anon))) (getter .done))
+  | "s:qy" => some (.alloc (getDeclaredPkgID (.declared pV)) (getter .done))
+  -- conversions to the victim's declared types (explicit, or implicit at the call)
+  | "s:qc" | "s:qd" => some (.alloc none (.convTo pV false .done))
+  | "s:qh" => some (.alloc none (.convTo pV false (getter .done)))
+  -- zero values: no construction site is reached
+  | "s:zv" | "s:zt" | "s:zi" => some (getter .done)
+  | "s:zw" => some (.alloc (some pA) (getter .done))
   | "s:km" => some (.alloc (getDeclaredPkgID (.sliceOf (.declared pV))) .done)
   | "s:ka" => some (.alloc (getDeclaredPkgID (.arrayOf (.declared pV))) .done)
   | "s:kz" => some .done
@@ -159,7 +183,7 @@ def hasStatic : Ev → Bool
   | .done => false
   | .static _ => true
   | .call _ _ _ _ _ body next => hasStatic body || hasStatic next
-  | .lit _ n | .alloc _ n | .ro _ n | .roName _ _ n | .conv _ _ n | .upd _ _ n
+  | .lit _ n | .alloc _ n | .ro _ n | .roName _ _ n | .conv _ _ n | .convTo _ _ n | .upd _ _ n
   | .attach _ _ n | .adopt _ n | .persistRealm _ n => hasStatic n
 
 def b01 (b : Bool) : String := if b then "1" else "0"
